@@ -1574,3 +1574,11 @@ package rtcp
 //@     invariant[C12] forall k :: 1 <= k && k+1 < cbcalls() ==> specBitIndex(n.PacketID, cbArg[uint16](k)) < specBitIndex(n.PacketID, cbArg[uint16](k+1))
 //@     invariant[C12] cbcalls() == 1 + int(specPopcount16(uint16(n.LostPackets) & (uint16(1)<<i - 1)))
 //@     decreases 16 - int(i)
+
+//@ func (n *NackPair) PacketList() (result []uint16)
+//@   safety[C12]
+//@   fresh
+//@   ensures[C12] n: len(result) == 1 + int(specPopcount16(uint16(n.LostPackets)))
+//@   ensures[C12] first: result[0] == n.PacketID
+//@   ensures[C12] bits: forall k :: 1 <= k && k < len(result) ==> specBitIndex(n.PacketID, result[k]) < 16 && uint16(n.LostPackets)>>specBitIndex(n.PacketID, result[k])&1 == 1
+//@   ensures[C12] ascending: forall k :: 1 <= k && k+1 < len(result) ==> specBitIndex(n.PacketID, result[k]) < specBitIndex(n.PacketID, result[k+1])
